@@ -36,7 +36,7 @@ def c05(tier, seed, dst, facts):
     # ------------------------------------------------------------------ matching: length
     # quick: two of the nine shapes per run, rotating with VERIF_SEED so that every run length and every position comes
     # up (a shape costs 3-6 minutes of solver time: nine real matcher calls merged); thorough: all nine
-    ml_rot = [[("first", 1), ("last", 3)], [("middle", 2), ("first", 3)], [("middle", 1), ("last", 3)]]
+    ml_rot = [[("last", 3)], [("middle", 2)], [("first", 1)], [("first", 3)], [("middle", 1)]]
     for (p, L) in (shapes if tier == "thorough" else ml_rot[seed % len(ml_rot)]):
         pre, post = POS[p]
         nm = "c05_match_length_%s_%d" % (p, L)
@@ -202,7 +202,7 @@ fn @name@() {
         if tier == "thorough":
             rows = menu.get((p, L), [])        # the whole menu; rows outside it were not all measured (one exhausted 14 GB)
         else:
-            rows = [r for i, r in enumerate(menu.get((p, L), [])) if (i + seed + L) % 2 == 0]
+            rows = [r for i, r in enumerate(menu.get((p, L), [])) if (i + seed + L) % 3 == 0]
         for k in rows:
             la, lb = k % 3, k // 3
             nm = "c05_set_length_any_%s_%d_row%d" % (p, L, k)
@@ -288,7 +288,7 @@ fn @name@() {
     # on the LAST copy of the run (the caller steps once more), and a capture is recorded iff the element matched.
     # The rule's segment is concrete (all 26 + 8 slots of the joined matrix are then concrete, R1); the neighbours are symbolic.
     HDRA = HDR.replace("unwind(8)", "unwind(%d)" % (facts["ftype_count"] + 2))
-    ipa_shapes = [(L, k) for L in (1, 2, 3) for k in range(4)] if tier == "thorough" else [[(3, 0), (2, 3)], [(3, 2), (1, 1)]][seed % 2]
+    ipa_shapes = [(L, k) for L in (1, 2, 3) for k in range(4)] if tier == "thorough" else [[(3, 0)], [(3, 2)], [(2, 3)]][seed % 3]
     for (L, k) in ipa_shapes:
         la, lb = [("Some(false)", "None"), ("Some(true)", "None"), ("None", "Some(false)"), ("None", "Some(true)")][k]
         arr = ["[bin(false), None]", "[bin(true), None]", "[None, bin(false)]", "[None, bin(true)]"][k]
@@ -467,7 +467,7 @@ fn c05_twin_reach() {
 """), functions=["Syllable::apply_supras"], symbolic="as set-length", shape="assert(false) twin", expect="fail", unwind=8, stubs=STUBS))
 
     return {
-        "harnesses": hs, "cap_s": 900 if tier == "quick" else 1800, "jobs": 8,
+        "harnesses": hs, "cap_s": 900 if tier == "quick" else 1800, "jobs": 10,
         "bounds": ["syllable shapes: run length 1..3, run first / middle / last in its syllable, at most one neighbour each side", "unwind 8 (runs <= 3, syllables <= 5 segments); replace_segment shapes unwind FType::count()+2",
                    "modifier combinations: all 9 = {absent,+,-}^2 per table, chosen by a symbolic selector, each arm built with concrete constructors"],
         "outside": ["the cursor arithmetic of SubRule::apply/substitution (subrule.rs:1394-1415, 1975-1978): the defect quoted in the property (`V > [+long]` on an already long vowel) lives there and is NOT visible to these kernels; whole-rule application does not finish under CBMC",
